@@ -241,6 +241,8 @@ func genSubjSched(tier string, seed int64, only string) []*Case {
 		id++
 		cases = append(cases, newCase(id, "kind", "subjsched", "scen", "uu", "op", cfg.op, "p", cfg.p))
 	}
+	id++
+	cases = append(cases, newCase(id, "kind", "subjsched", "scen", "uuasync", "op", "async", "p", "-"))
 	for _, p := range []string{"-1", "2"} {
 		id++
 		cases = append(cases, newCase(id, "kind", "subjsched", "scen", "lost", "op", "unicast", "p", p))
@@ -274,6 +276,8 @@ func runSubjSched(c *Case) string {
 			}
 		}
 		return "res " + c.id + " not-reproduced"
+	case "uuasync":
+		return schedUUAsync(c)
 	case "lost":
 		return schedLost(c)
 	}
@@ -345,6 +349,55 @@ func schedUU(c *Case) (string, bool) {
 	close(g.release)
 	<-done
 	return fmt.Sprintf("res %s hist=%s %s", c.id, histString(st.hist), cl.traces()), true
+}
+
+// async: Complete broadcasts the stored value, then the completion; the subscriber unsubscribes
+// (from another goroutine) while it is handling the value: it gets the value and no completion
+func schedUUAsync(c *Case) string {
+	subject, ok := newSubjectOf("async", nil)
+	if !ok {
+		return "res " + c.id + " unsupported"
+	}
+	setRecorder(&Recorder{})
+	defer setRecorder(nil)
+	cl := newSubjClient(subject, subjectIDs)
+	g := &gate{entered: make(chan int, 2), release: make(chan struct{}), armed: 1}
+	st := &stamper{}
+	obs := roObserverBlocking(cl.recs[0], func() {
+		if atomic.CompareAndSwapInt32(&g.armed, 1, 2) {
+			g.entered <- 0
+			<-g.release
+		}
+	})
+	mark := func(k int) contextT { return withMark(withMark(ctxFromMarks(nil), 7), k) }
+	st.do(subjOp{'S', 0}, 1, func() { cl.subs[0] = subject.SubscribeWithContext(mark(1), obs) })
+	st.do(subjOp{'N', 1}, 2, func() { subject.NextWithContext(mark(2), 1) })
+	done := make(chan struct{})
+	go func() {
+		st.do(subjOp{'C', 0}, 3, func() { subject.CompleteWithContext(mark(3)) })
+		close(done)
+	}()
+	select {
+	case <-g.entered:
+	case <-time.After(5 * time.Second):
+		return "res " + c.id + " harness-timeout"
+	}
+	unsubbed := make(chan struct{})
+	go func() {
+		st.do(subjOp{'U', 0}, 4, func() { cl.subs[0].Unsubscribe() })
+		close(unsubbed)
+	}()
+	select {
+	case <-unsubbed:
+	case <-time.After(3 * time.Second):
+		close(g.release)
+		<-done
+		<-unsubbed
+		return "res " + c.id + " schedule-impossible=unsubscribe-waits-for-broadcast"
+	}
+	close(g.release)
+	<-done
+	return fmt.Sprintf("res %s hist=%s %s", c.id, histString(st.hist), cl.traces())
 }
 
 // goroutineBlockedInSubscriberLock: some goroutine is parked in sync.Mutex.Lock called from
